@@ -552,6 +552,31 @@ def run(ck: Check):
                 raise
             except Exception as e:  # noqa: BLE001
                 ck.mismatch("order mutations could not be evaluated", {"error": repr(e)[:300]})
+        # (1c) SEVERAL LIVE INSTANCES: a model must give the same value whether it is alone in the process or built alongside
+        #      differently configured ones (all built first, then evaluated in another order); helper objects are shared by none
+        alongside_failures = []
+        for g in range(12 if thorough else 4):
+            try:
+                cases = [G.gen_case(rng, n_, subst=sb, nsites=rng.randint(3, 5))
+                         for n_, sb in zip(rng.sample([3, 4, 5], 3), rng.sample(["JC69", "HKY", "GTR", "LG", "GeneralNonSymmetric"], 3))]
+                alone = [run_.value(c, lean=False) for c in cases]
+                models = [G.build_model(c) for c in cases]        # all alive before any evaluation
+                order = rng.sample(range(3), 3)
+                got = {}
+                for i in order:
+                    try:
+                        got[i] = c01.impl_value(models[i])
+                    except Exception as e:  # noqa: BLE001  (raising alongside others while fine alone is a failure of the relation)
+                        got[i] = None
+                        ck.notes.append("alongside evaluation raised: " + repr(e)[:120]) if len(ck.notes) < 5 else None
+                for i in range(3):
+                    ck.case(key=("alongside", g, i, cases[i]["newick"]), bucket="several-live-instances")
+                    if not close(got[i], alone[i], 1e-12):
+                        alongside_failures.append({"cases": cases, "order": order, "instance": i, "alone": alone[i], "alongside": got[i]})
+            except InfraError:
+                raise
+            except Exception as e:  # noqa: BLE001
+                ck.mismatch("several-live-instances relation could not be evaluated", {"error": repr(e)[:300]})
         # (2) the tree-model option use_postorder_indices only renumbers the leaves: taxa order must still not matter,
         #     and the value must be that of the same specification without the option
         for rooting in ("unrooted", "time", "unrooted", "time") if thorough else ("unrooted", "time"):
@@ -652,6 +677,13 @@ def run(ck: Check):
                      + f" but the marginal of the data matched BY NAME is {f['oracle']} ({len(fs)} failing cases)",
                      {"mutation": {"case": f["case"], "how": how}, "detail": {k: v for k, v in f.items() if k != "case"},
                       "replay_cmd": "./check C02 --replay <this file>"})
+    if alongside_failures:
+        f = alongside_failures[0]
+        ck.violation("TreeLikelihoodModel:several-live-instances",
+                     f"a model ({len(f['cases'][f['instance']]['taxa'])} taxa, {f['cases'][f['instance']]['subst']['kind']}) returns {f['alongside']} when built alongside two "
+                     f"differently configured models (all built first, evaluated in order {f['order']}) but {f['alone']} when built alone "
+                     f"({len(alongside_failures)} failing instances)",
+                     {"alongside": f, "replay_cmd": "./check C02 --replay <this file>"})
     fails = run_.failures
     opt = [f for f in fails if "use_postorder_indices" in f["relation"]]
     if opt:
@@ -671,7 +703,7 @@ def run(ck: Check):
             f"({len(fails)} failing pairs, relations {rels}; smallest has {len(f['a']['taxa'])} taxa)",
             {"pair": f, "broken_obligations": broken, "mismatches": ck.mismatches[:3], "replay_cmd": "./check C02 --replay <this file>"},
         )
-    elif not opt and not regime_failures and not mutation_failures and (not ok or ck.mismatches):
+    elif not opt and not regime_failures and not mutation_failures and not alongside_failures and (not ok or ck.mismatches):
         ck.violation(
             "C02:unproved",
             "C02 theorems or the model/implementation correspondence no longer check "
@@ -684,6 +716,20 @@ def run(ck: Check):
 def replay(path: str) -> int:
     c01.setup_torch()
     obj = json.loads(Path(path).read_text())
+    if obj.get("alongside"):
+        f = obj["alongside"]
+        alone = [c01.impl_value(G.build_model(c)) for c in f["cases"]]
+        models = [G.build_model(c) for c in f["cases"]]
+        got = {}
+        for i in f["order"]:
+            try:
+                got[i] = c01.impl_value(models[i])
+            except Exception as e:  # noqa: BLE001
+                print("alongside evaluation raised:", repr(e)[:200])
+                got[i] = None
+        bad = any(not close(got[i], alone[i], 1e-12) for i in got)
+        print(f"alone: {alone}; alongside (order {f['order']}): {[got[i] for i in range(len(alone))]}; {'VIOLATES' if bad else 'ok'}")
+        return 1 if bad else 0
     if obj.get("mutation"):
         import random
 
